@@ -347,15 +347,22 @@ pub fn reference(sc: &RunloopSc, iset: &mut InstructionSet, names: &[String], ma
             break;
         }
         let before = own_size(&st);
+        let before_all = before + st.index_stack.size() + st.graph_stack.size();
         step_events.push(simenv::with(|s| s.events));
         let done = PushInterpreter::step(&mut st, iset, &cache);
         if done {
             violations.push(viol("oracle:step-return", "step", "step() returned true although EXEC was not empty".into(), 0));
             break;
         }
-        if own_size(&st) > before + cap {
-            accept.push(Accept { outcome: "GrowthCapExceeded", steps: steps + 1, code: statecode::statecode(&st), must: true });
-            break;
+        // "the state": the nine value stacks the tree counts, or those plus INDEX and GRAPH (both are
+        // "the stacks without the IO stacks"); a stop is due when both readings agree, allowed when one does
+        let grew9 = own_size(&st) > before.saturating_add(cap);
+        let grew_all = own_size(&st) + st.index_stack.size() + st.graph_stack.size() > before_all.saturating_add(cap);
+        if grew9 || grew_all {
+            accept.push(Accept { outcome: "GrowthCapExceeded", steps: steps + 1, code: statecode::statecode(&st), must: grew9 && grew_all });
+            if grew9 && grew_all {
+                break;
+            }
         }
         steps += 1;
     });
